@@ -285,6 +285,15 @@ class Run:
             # download - names that only *begin* like a file of the set
             self.be.add(p + [".bak", ".part", "~"][junk % 3])
             self.probe("leftover_entries_next_to_members")
+            dirs = F.DIRS[self.t["dirs"]]
+            if junk == 3 and "{day}" in dirs and "{month}" in dirs:
+                # a pre-provisioned directory skeleton: day directories that
+                # are no calendar dates (02/30, 04/31)
+                parts = [c.replace("{year}", f"{f['t0'].year:04d}").replace("{month}", "02")
+                         .replace("{day}", "30").replace("{hour}", "00")
+                         .replace("{sat}", "a").replace("*", "x") for c in dirs]
+                self.be.add("/".join([self.be.root] + parts + ["stray.tmp"]))
+                self.probe("day_directory_that_is_no_date")
         c = self.cov(f)
         lim = F.dir_period(F.DIRS[self.t["dirs"]])
         if lim is not None and _dir_of(c[0], lim) != _dir_of(c[1], lim):
